@@ -230,9 +230,20 @@ var checkLS = ev.Register("least-squares", func(c *LSCase) ev.Outcome {
 		}
 	}
 	// independent solution by QR
+	ymax := 0.0
+	for _, y := range c.Ys {
+		ymax = math.Max(ymax, math.Abs(y))
+	}
 	if q := qrFit(X, c.Ys, c.W); q != nil {
 		for j := range q {
-			tol := 64 * nf * cond * ref.Eps * bmax
+			// both solvers carry rounding errors of the size eps*|y| in the right-hand side,
+			// which move coefficient j by up to eps*|y|/|column j|, whatever the size of the
+			// coefficient itself (a mean of data in [-10,10] can be 0)
+			colmax := 1e-300
+			for i := 0; i < n; i++ {
+				colmax = math.Max(colmax, math.Abs(X.At(i, j)))
+			}
+			tol := 64 * nf * cond * ref.Eps * (bmax + ymax/colmax)
 			if !(math.Abs(q[j]-beta[j]) <= tol) {
 				return ev.Fail("coefficient %d = %.17g, QR solution %.17g (tol %.3g)", j, beta[j], q[j], tol)
 			}
@@ -308,7 +319,11 @@ var checkPoly = ev.Register("polynomial-regression", func(c *PolyCase) ev.Outcom
 		cmax = math.Max(cmax, math.Abs(v))
 	}
 	nf := float64(n)
-	tolC := 64 * nf * cond * ref.Eps * cmax
+	ymaxP := 0.0
+	for _, y := range ys {
+		ymaxP = math.Max(ymaxP, math.Abs(y))
+	}
+	tolC := 64 * nf * cond * ref.Eps * (cmax + ymaxP)
 	classes := []string{fmt.Sprintf("degree=%d", d)}
 	if c.Noise == nil && len(c.Coef) <= d+1 {
 		// reproduction of a polynomial of degree <= d
